@@ -1683,3 +1683,83 @@ def calls_or_fnitem_calls(body, rx):
         if any(rxc.fullmatch(n) for n in names):
             out.add(i)
     return sorted(out)
+
+
+
+# ------------------------------------------------------------------------------------------------
+# feasibility over one integer status local compared with a constant (R4.8)
+
+def int_root(body, x):
+    """The local an integer temporary is a plain copy of (`_n = copy rv` right before `_n == 0`), else x."""
+    ba = BA.of(body)
+    for _ in range(6):
+        d = ba.single_def(x)
+        if d and d[0] == "stmt" and d[3]["k"] == "use" and op_local(d[3]["op"]) is not None and not op_place(d[3]["op"])["p"]:
+            x = op_local(d[3]["op"])
+        else:
+            break
+    return x
+
+
+def int_status_path(body, var, value, via, goals):
+    """A path entry -> `via` -> a block of `goals` that can execute as far as (a) the enum / bool / Option knowledge of
+    core.FAL and (b) the integer local `var` are concerned: walks (block, env, s, passed) with s in {None (unknown),
+    'eq' (var == value), 'ne'}; `var := const` fixes s, any other assignment to `var` forgets it, and a branch on
+    `var ==/!= value` (directly or on a fresh copy) takes only the arm s allows (an unknown s takes both and learns).
+    Returns the block list or None. If `var` is ever borrowed mutably s stays unknown (more paths, never fewer)."""
+    from core import FAL
+    fa = FAL.of(body)
+    frozen = False
+    for blk in body.blocks:
+        for st in blk["stmts"]:
+            if st["s"] == "assign" and st["rv"]["k"] in ("ref", "rawptr") and st["rv"]["place"]["l"] == var and (st["rv"].get("mut") or st["rv"]["k"] == "rawptr"):
+                frozen = True
+    sws = {}
+    if not frozen:
+        for (sw, ne_t, eq_t, x) in cmp_const_switches(body, value):
+            if int_root(body, x) == var:
+                sws[sw] = (ne_t, eq_t)
+    goals = set(goals)
+
+    def after_stmts(bb, s):
+        for st in body.blocks[bb]["stmts"]:
+            if st["s"] == "assign" and st["place"]["l"] == var and not st["place"]["p"]:
+                c = const_int(st["rv"]["op"]) if st["rv"]["k"] == "use" else None
+                s = None if c is None else ("eq" if c == value else "ne")
+        t = body.blocks[bb]["term"]
+        if t["t"] == "call" and t["dest"]["l"] == var:
+            s = None
+        return s
+
+    start = (0, (), None, via == 0)
+    prev = {start: None}
+    todo = [start]
+    while todo:
+        st = todo.pop(0)
+        bb, envt, s, passed = st
+        if len(prev) > 400000:
+            return BA.of(body).path([via], list(goals))
+        if bb in goals and passed and not (bb == via and prev[st] is None):
+            out = []
+            while st is not None:
+                out.append(st[0])
+                st = prev[st]
+            return list(reversed(out))
+        s2 = after_stmts(bb, s)
+        for (x, e) in fa.step(bb, envt):
+            s3 = s2
+            if bb in sws:
+                ne_t, eq_t = sws[bb]
+                if x == eq_t and x != ne_t:
+                    if s2 == "ne":
+                        continue
+                    s3 = "eq"
+                elif x == ne_t and x != eq_t:
+                    if s2 == "eq":
+                        continue
+                    s3 = "ne"
+            n = (x, e, s3, passed or x == via)
+            if n not in prev:
+                prev[n] = st
+                todo.append(n)
+    return None
